@@ -12,6 +12,7 @@ the item, so that reference is the caller's).
 -/
 import Gkv.Proofs.Refs
 import Gkv.Proofs.VersionsLeak
+import Gkv.Gen.SlotCopies
 open Std
 
 namespace Gkv.Props.C15
@@ -37,8 +38,10 @@ theorem reachable_positive {s : St} (h : Reach s) :
     reference gkvlite took has been released") under the hypothesis `hn` that every node object
     was freed, and the caller returned what it was handed.  Whether closing everything frees
     every node is a statement about the version protocol, not about this accounting model; it is
-    the three theorems below, and it is FALSE of the code in general (known finding F11,
-    `corpus/F11-orphan-leak.ops`). -/
+    the theorems below.  It was FALSE of the pinned code (defect F11, `corpus/F11-orphan-leak.ops`,
+    repaired by /repo commit "fix: split loads the children of the found node before copying
+    their slots"); `slots_loaded_before_copied` is the regenerated obligation that keeps the
+    repaired code inside the hypothesis of `nodes_all_freed_if_no_load_under_replaced`. -/
 theorem closed_balanced_partial {s : St} (h : Reach s) (hn : s.nodes = []) (hh : ∀ i, s.handed i = 0) :
     ∀ i, s.count i = 0 := Gkv.Refs.closed_balanced h hn hh
 
@@ -69,5 +72,24 @@ theorem nodes_not_all_freed :
     ¬ (∀ s, Gkv.Versions.Reach Gkv.VersionsLeak.FT s → (∀ v, s.refs v = 0) →
         ∀ n, (∃ v, s.tree v n) → s.freed n) :=
   Gkv.VersionsLeak.all_closed_all_freed_false
+
+/-! ### the code side of `GStrict` (regenerated table)
+
+A reader of an old version can load a node under a replaced node only through a child slot that
+was still unloaded when the mutation copied it: a loaded slot is shared by both versions (one node
+object), and every node the mutation itself walks is loaded.  `Gen/SlotCopies.lean` is rewritten
+from /repo on every run: one row per argument `&X.left` / `&X.right` of a call to `mkNode` or
+`Copy`, with whether an earlier call in the same function reads that slot (`numInfo(.., &X.left, ..)`
+or `X.left.read(..)`), and how many of its two parameters `numInfo` reads.  Expected: the six
+reviewed sites (two in `join`, four in `split`), all guarded; `numInfo` reads both.  "Earlier" is
+textual order inside one function, not dominance — the site list is short enough to review, and
+that review is what this statement pins down.  With the F11 repair reverted the two `Copy` sites
+of `split`'s key-found arm are unguarded and this theorem is refuted. -/
+theorem slots_loaded_before_copied :
+    Gen.SlotCopies.sites =
+      [("Store.join", "thatNode.right", true), ("Store.join", "thisNode.left", true),
+       ("Store.split", "nNode.left", true), ("Store.split", "nNode.left", true),
+       ("Store.split", "nNode.right", true), ("Store.split", "nNode.right", true)] ∧
+    Gen.SlotCopies.numInfoReads = 2 := by decide
 
 end Gkv.Props.C15
